@@ -29,7 +29,9 @@ import (
 //
 // Gates (= events the explorer orders; every order is enumerated): the start of a node's second
 // call, every Members query, every actor-registry call (ActorExists, GetActor, PutActor,
-// PutActorIfAbsent, RemoveActor), the delivery of every RemoteSpawn at the target node. Fault, cost 1:
+// PutActorIfAbsent, RemoveActor), the delivery of every RemoteSpawn at the target node, the PreStart
+// hook of every instance being started (it runs after the cluster-wide name check and before the
+// instance enters the local actor tree). Fault, cost 1:
 // "flip" at a Members gate = a leadership change happened before this answer (from then on every
 // node is told that the next node is the coordinator).
 //
@@ -61,6 +63,9 @@ func (a *c36Singleton) PreStart(ctx *Context) error {
 	if n < 0 {
 		return fmt.Errorf("c36: unknown system")
 	}
+	// the instance is being started: a gate inside PreStart lets other events happen between the
+	// cluster-wide name check of this spawn and its insertion into the local actor tree
+	st.w.wait(ctx.Context(), n, "PreStart")
 	st.w.mu.Lock()
 	_, registered := st.w.actors[ctx.ActorName()]
 	st.w.mu.Unlock()
